@@ -179,12 +179,12 @@ theorem scanSpec_stop (key : Bytes) (xs : List Entry) (off c : Nat) (hc : c ≤ 
 
 /-! ### index search -/
 
-theorem bsLoop_spec (cmpAt : Nat → Option Ordering) (g : Nat → Ordering) (n : Nat)
-    (hg : ∀ j, j < n → cmpAt j = some (g j))
+theorem bsLoop_spec (cmpAt : Nat → Outcome Ordering) (g : Nat → Ordering) (n : Nat)
+    (hg : ∀ j, j < n → cmpAt j = .ok (g j))
     (mono : ∀ a b, a ≤ b → b < n → g b = .lt → g a = .lt)
     (fuel lo hi : Nat) (hlo : ∀ j, j < lo → g j = .lt) (hhi : ∀ j, hi ≤ j → j < n → g j ≠ .lt)
     (hle : lo ≤ hi) (hhin : hi ≤ n) (hf : hi - lo ≤ fuel) :
-    ∃ i, bsLoop cmpAt fuel lo hi = some i ∧ lo ≤ i ∧ i ≤ hi ∧ (∀ j, j < i → g j = .lt) ∧
+    ∃ i, bsLoop cmpAt fuel lo hi = .ok i ∧ lo ≤ i ∧ i ≤ hi ∧ (∀ j, j < i → g j = .lt) ∧
       (∀ j, i ≤ j → j < n → g j ≠ .lt) := by
   induction fuel generalizing lo hi with
   | zero =>
@@ -228,18 +228,18 @@ theorem cmp_mono_lt {a b t : Bytes} (hab : Bytes.cmp a b ≠ .gt) (hb : Bytes.cm
 
 /-- `Search` on an index whose sampled keys `ks` are strictly ascending: the chosen block `f` is the last one
 whose first key is `≤ target` (block 0 if there is none); every later block starts above the target. -/
-theorem search_spec (ks : List Bytes) (offs : List Nat) (readKey : Nat → Option Bytes) (target : Bytes)
+theorem search_spec (ks : List Bytes) (offs : List Nat) (readKey : Nat → Outcome Bytes) (target : Bytes)
     (hlen : offs.length = ks.length) (hpos : 0 < ks.length)
-    (hread : ∀ j, j < ks.length → readKey (offs.getD j 0) = some (ks.getD j []))
+    (hread : ∀ j, j < ks.length → readKey (offs.getD j 0) = .ok (ks.getD j []))
     (hs : ∀ a b, a < b → b < ks.length → Bytes.cmp (ks.getD a []) (ks.getD b []) = .lt) :
     ∃ f, f < ks.length ∧
       search offs readKey target = .range (offs.getD f 0) (if f + 1 = offs.length then none else some (offs.getD (f + 1) 0)) ∧
       (f = 0 ∨ Bytes.cmp (ks.getD f []) target ≠ .gt) ∧
       (∀ j, f < j → j < ks.length → Bytes.cmp (ks.getD j []) target = .gt) := by
   let g : Nat → Ordering := fun j => Bytes.cmp (ks.getD j []) target
-  let cmpAt : Nat → Option Ordering := fun i => (readKey (offs.getD i 0)).map (fun k => Bytes.cmp k target)
-  have hg : ∀ j, j < ks.length → cmpAt j = some (g j) := by
-    intro j hj; show (readKey (offs.getD j 0)).map _ = some _; rw [hread j hj]; rfl
+  let cmpAt : Nat → Outcome Ordering := fun i => cmpKey target (readKey (offs.getD i 0))
+  have hg : ∀ j, j < ks.length → cmpAt j = .ok (g j) := by
+    intro j hj; show cmpKey target (readKey (offs.getD j 0)) = _; rw [hread j hj]; rfl
   have mono : ∀ a b, a ≤ b → b < ks.length → g b = .lt → g a = .lt := by
     intro a b hab hb hlt
     by_cases he : a = b
@@ -265,10 +265,12 @@ theorem search_spec (ks : List Bytes) (offs : List Nat) (readKey : Nat → Optio
   unfold search
   simp only [hne, Bool.false_eq_true, if_false, hlen]
   show ∃ f, f < ks.length ∧ (match bsLoop cmpAt ks.length 0 ks.length with
-      | none => SearchRes.err
-      | some i => match (if i < ks.length then cmpAt i else some .lt) with
-        | none => SearchRes.err
-        | some o => SearchRes.range (offs.getD (if o = Ordering.eq then i else if 0 < i then i - 1 else i) 0)
+      | .err => SearchRes.err
+      | .panic => SearchRes.panic
+      | .ok i => match (if i < ks.length then cmpAt i else .ok .lt) with
+        | .err => SearchRes.err
+        | .panic => SearchRes.panic
+        | .ok o => SearchRes.range (offs.getD (if o = Ordering.eq then i else if 0 < i then i - 1 else i) 0)
             (if (if o = Ordering.eq then i else if 0 < i then i - 1 else i) + 1 = ks.length then none
              else some (offs.getD ((if o = Ordering.eq then i else if 0 < i then i - 1 else i) + 1) 0))) = _ ∧ _
   rw [hbs]
@@ -406,10 +408,12 @@ theorem find_segment (A B C : List Entry) (key : Bytes)
 theorem searchScan_blocks (bs : List Block) (hne : bs ≠ []) (hwf : ∀ e ∈ blocksFlat bs, e.WF)
     (hs : SortedKeys (blocksFlat bs)) (key : Bytes) :
     (match search (blockOffsets 0 bs)
-        (fun off => ((readVar ((encEntries (blocksFlat bs)).drop off)).map (·.1))) key with
+        (readKeyAt (encEntries (blocksFlat bs)) (encEntries (blocksFlat bs)).length) key with
       | .err => GetRes.err
+      | .panic => GetRes.panic
       | .range start stop =>
-        scanGet key stop (((encEntries (blocksFlat bs)).drop start).length + 1)
+        if (encEntries (blocksFlat bs)).length < start then GetRes.panic
+        else scanGet key stop (((encEntries (blocksFlat bs)).drop start).length + 1)
           ((encEntries (blocksFlat bs)).drop start) start)
       = GetRes.ofOption (lookup (blocksFlat bs) key) := by
   have hm : 0 < bs.length := List.length_pos_iff.mpr hne
@@ -426,14 +430,22 @@ theorem searchScan_blocks (bs : List Block) (hne : bs ≠ []) (hwf : ∀ e ∈ b
       = encEntries ((bs[j]).ents ++ blocksFlat (bs.drop (j + 1))) := by
     intro j hj
     rw [hoffs j hj, ent_drop, List.drop_eq_getElem_cons hj]; rfl
-  let rk : Nat → Option Bytes := fun off => ((readVar ((encEntries (blocksFlat bs)).drop off)).map (·.1))
-  have hread : ∀ j, j < ks.length → rk ((blockOffsets 0 bs).getD j 0) = some (ks.getD j []) := by
+  -- every index offset lies inside the entries block: the bounded cursor never panics
+  have hbound : ∀ j, j < bs.length → ¬ ((encEntries (blocksFlat bs)).length < (blockOffsets 0 bs).getD j 0) := by
     intro j hj
-    show ((readVar ((encEntries (blocksFlat bs)).drop ((blockOffsets 0 bs).getD j 0))).map (·.1)) = _
+    rw [hoffs j hj]
+    have := congrArg (fun l => (encEntries (blocksFlat l)).length) (List.take_append_drop j bs)
+    simp only [blocksFlat_append, encEntries_append, List.length_append] at this
+    omega
+  let rk : Nat → Outcome Bytes := readKeyAt (encEntries (blocksFlat bs)) (encEntries (blocksFlat bs)).length
+  have hread : ∀ j, j < ks.length → rk ((blockOffsets 0 bs).getD j 0) = .ok (ks.getD j []) := by
+    intro j hj
     have hj' : j < bs.length := by omega
     have hk : (bs[j]).1.WF := hwf _ (head_mem_blocksFlat (List.getElem_mem hj'))
-    simp only [hdrop j hj', Block.ents, List.cons_append, encEntries, encEntry, List.append_assoc,
-      readVar_encVar _ _ hk.key, Option.map_some, hks j hj']
+    show readKeyAt _ _ _ = _
+    unfold readKeyAt
+    simp only [hbound j hj', if_false, hdrop j hj', Block.ents, List.cons_append, encEntries, encEntry, List.append_assoc,
+      readVar_encVar _ _ hk.key, hks j hj']
   have hsorted : ∀ a b, a < b → b < ks.length → Bytes.cmp (ks.getD a []) (ks.getD b []) = .lt := by
     intro a b hab hb
     have hb' : b < bs.length := by omega
@@ -443,7 +455,7 @@ theorem searchScan_blocks (bs : List Block) (hne : bs ≠ []) (hwf : ∀ e ∈ b
     (by rw [blockOffsets_length, hks_len]) (by omega) hread hsorted
   have hf' : f < bs.length := by omega
   rw [hsearch]
-  simp only []
+  simp only [hbound f hf', if_false]
   -- the scan
   have hwf_tail : ∀ e ∈ (bs[f]).ents ++ blocksFlat (bs.drop (f + 1)), e.WF := by
     intro e he
